@@ -612,6 +612,8 @@ class Screen(BaseScreen, RealTerminal):
 
         first = True
         last_charset_flag = None
+        # C0 control characters take no columns in UTF-8 (drop them) and one column otherwise (shown as "?")
+        unprintable = (None, bytes(range(32))) if str_util.get_byte_encoding() == "utf8" else (UNPRINTABLE_TRANS_TABLE,)
 
         for row in canvas.content():
             y += 1
@@ -651,7 +653,7 @@ class Screen(BaseScreen, RealTerminal):
                     raise TypeError(run)
 
                 if cs != "U":
-                    run = run.translate(UNPRINTABLE_TRANS_TABLE)  # noqa: PLW2901
+                    run = run.translate(*unprintable)  # noqa: PLW2901
 
                 if last_attributes != a:
                     output.append(attr_to_escape(a))
@@ -681,6 +683,8 @@ class Screen(BaseScreen, RealTerminal):
                     raise ValueError(insertcs)
 
                 if isinstance(inserttext, bytes):
+                    if insertcs != "U":
+                        inserttext = inserttext.translate(*unprintable)
                     inserttext = inserttext.decode(encoding, "replace")
 
                 output.extend(("\x08" * back, ias))  # pylint: disable=used-before-assignment  # defined in `if row`
